@@ -154,6 +154,7 @@ struct Plan
     long                 globalSeed = 0;
     int                  threads = 1;           // OS threads the clients are spread over (1 = all on the main thread)
     std::map<int, int>   affinity;              // scheduler id of a client -> thread index (absent = 0 = main)
+    std::vector<int>     boundaryPairs;         // generation-time note only (not part of the plan text)
     std::vector<EClient> e;
     std::vector<int>     g;
     std::vector<Pair>    pairs;
@@ -371,6 +372,23 @@ static Plan generate (uint64_t seed)
             else if (w < 95 && enFork) s.op = "fork";
             else s.op = "nexti";
             q.script.push_back (s);
+        }
+        if (q.kind == "R32" && enBoundary && r.chance (0.4))
+        {
+            // boundary seed: chosen so that the generator state at draw k+1 has an extreme low 23 bits (all ones, all
+            // zeros, 0x400000) - the values nextf() is built from.  The constants of Rand32 are used only to *find*
+            // interesting seeds, never as an oracle: if they change, these are simply ordinary seeds.
+            auto inv64 = [] (uint64_t a) { uint64_t x = a; for (int i = 0; i < 6; i++) x *= 2 - a * x; return x; };
+            uint64_t low = r.chance (0.6) ? 0x7fffffULL : (r.chance (0.5) ? 0ULL : 0x400000ULL);
+            uint64_t st  = ((r.next () & 0xffffffffULL) & ~0x7fffffULL) | low;
+            int      k   = r.range (0, 2);
+            for (int i = 0; i <= k; i++) st = (st - 1013904223ULL) * inv64 (1664525ULL);
+            q.seed = (st ^ 0x5a5a5a5aULL) * inv64 (0xa5a573a5ULL);
+            while (int (q.script.size ()) < k + 2) q.script.push_back (ScriptOp ());
+            for (int i = 0; i < k; i++) { q.script[i] = ScriptOp (); q.script[i].op = (i & 1) ? "nextb" : "nexti"; }
+            q.script[k] = ScriptOp (); q.script[k].op = "nextf";
+            for (auto& so : q.script) if (so.op.empty ()) so.op = "nexti";
+            p.boundaryPairs.push_back (q.id);
         }
         p.pairs.push_back (q);
     }
